@@ -184,7 +184,94 @@ PROPS["C01"] = dict(
     technique="property-based testing (rapid) of generated timed plans (callers, cancellations, latencies, pushes) against a wire-level fake Redis inside a testing/synctest bubble; oracle = per-position reply identity + server-side frame log + hang/leak detection",
     level_text="Thousands of generated interleavings of concurrent Do/DoMulti/DoCache/DoMultiCache/blocking/Receive calls with cancellations and deadlines at exact virtual instants, arbitrary reply shapes, Pub/Sub pushes between replies, both queue implementations, ring sizes 2-16, RESP2 and RESP3; each result position must be that command's own reply tree.",
     level_note="Black-box through the public API; the fake server's framing is trusted (it is exercised against the real decoder in every case). Same-instant goroutine races are sampled, not enumerated. Attributes are not visible through the public API (checked in-package by C12). " + LIMITS,
-    units=[U("harness", "props", "TestVerif_C01_Pipelining", T(1500, timeout=900), T(6000, shards=16, timeout=1500, race_checks=600), variants=QUEUES, race=True)],
+    units=[U("harness", "props", "TestVerif_C01_Pipelining", T(1500, timeout=300), T(6000, shards=16, timeout=1500, race_checks=600), variants=QUEUES, race=True)],
+)
+
+PROPS["C03"] = dict(
+    level="fault_enumeration",
+    technique="property-based fault injection (rapid): generated programs x generated per-attempt fault plans (three drop points, LOADING, ERR, nil), slow replies past the close grace period, ConnLifetime expiry, kills and Close in a synctest bubble; oracle = server execution log",
+    level_text="For each generated program every command gets a generated outcome per arrival (drop before read / after execute / mid-reply, error replies) and connections expire or are killed at generated instants; the fake server's execution log must show each non-retryable command at most once and never a second send.",
+    level_note="Single client in this unit (cluster/sentinel/standalone re-send rules are exercised by the routing checks when present). Failure points are sampled per program, not enumerated exhaustively. " + LIMITS,
+    units=[U("harness", "props", "TestVerif_C03_AtMostOnce", T(1200, timeout=300), T(5000, shards=16, timeout=1500), variants=QUEUES)],
+)
+
+PROPS["C04"] = dict(
+    level="fault_enumeration",
+    technique="property-based fault injection (rapid) in a synctest bubble: connection reset / peer stops responding / Close at a generated instant against a generated mix of pending calls; hang detection by bubble deadlock and virtual-time budget",
+    level_text="A generated mix of synchronous, pipelined, cached, subscribed and blocking calls is pending when the connection fails or the client is closed at a generated virtual instant; every call must return, later calls must be served by a fresh connection or fail with ErrClosing after Close.",
+    level_note="A hang is detected soundly (bubble deadlock, or calls pending after 5 virtual minutes although every plan latency is below 3 s). " + LIMITS,
+    units=[U("harness", "props", "TestVerif_C04_NoHangingCalls", T(1200, timeout=300), T(5000, shards=16, timeout=1500), variants=QUEUES)],
+)
+
+PROPS["C05"] = dict(
+    level="exploration",
+    technique="property-based testing (rapid) of timed plans in a synctest bubble (exact virtual deadlines) plus a hook-owned schedule for the pool wake-up window; oracle = return time <= deadline + 5 virtual ms",
+    level_text="Calls with deadlines, manual cancels and done contexts are placed in every waiting state (stalled server, synchronous read, exhausted blocking pool, another caller's cache flight, retry back-off); return times are compared with the deadline in virtual time, so the check cannot flake on scheduling noise.",
+    level_note="The pool wake-up race is covered by the hook plan of C24 (TestVerif_C24_PoolLostWakeup). With the ring queue a caller parked on a full ring cannot be cancelled (documented), so plans keep in-flight calls below the ring size. " + LIMITS,
+    units=[
+        U("harness", "props", "TestVerif_C05_Deadlines", T(1200, timeout=300), T(6000, shards=16, timeout=1500), variants=QUEUES),
+        U("inpkg", "rueidis", "TestVerif_C24_PoolLostWakeup", T(100), T(1000, shards=8)),
+    ],
+)
+
+PROPS["C28"] = dict(
+    level="fault_enumeration",
+    technique="property-based fault injection (rapid): generated per-attempt outcome sequences and RetryDelay tables in a synctest bubble; oracle = model of the retry policy evaluated over the server's receive log and the RetryDelay call log",
+    level_text="Every extra send of a command must be justified by the previous attempt's outcome (transport error or LOADING), the command's class, the retry switch and RetryDelay; ordinary error, nil and value replies must reach the caller unchanged.",
+    level_note="Single client in this unit. Upper-bound oracle (retries only when allowed); it does not demand that allowed retries happen. " + LIMITS,
+    units=[U("harness", "props", "TestVerif_C28_RetryPolicy", T(1200, timeout=300), T(8000, shards=16, timeout=1500), variants=QUEUES)],
+)
+
+PROPS["C32"] = dict(
+    level="exploration",
+    technique="property-based testing (rapid): reflection walk over every generated command builder, differential against an independent classification of Redis commands written from the Redis command reference",
+    level_text="Every root builder is visited and completion paths are sampled; the flags of each built command (read-only, cacheable, blocking, Pub/Sub) are compared with an independent reference table; only high-confidence reference entries can raise a violation.",
+    level_note="The reference table /verif/ref/redis_commands.json is trusted for its high-confidence entries; paths are sampled. " + LIMITS,
+    units=[U("inpkg", "internal/cmds", "TestVerif_C32_Tags", T(20000), T(200000, shards=16), env={"VERIF_REPO_PATH": "/repo"})],
+)
+
+PROPS["C33"] = dict(
+    level="exploration",
+    technique="property-based testing (rapid): reflection walk with unique sentinel arguments; oracle = sentinel subsequence, unit keywords, command-spec keyword membership and a metamorphic replay with different arguments",
+    level_text="Sampled builder paths with sentinel arguments of every parameter type; the argv must carry exactly the supplied arguments in call order and in the documented textual form.",
+    level_note="hack/cmds/*.json is trusted as the list of keywords per command; part (b) of the property (no recycling before the command is written) is covered on the wire by the C01 bubble check. " + LIMITS,
+    units=[U("inpkg", "internal/cmds", "TestVerif_C33_Argv", T(20000), T(100000, shards=16), env={"VERIF_REPO_PATH": "/repo"})],
+)
+
+PROPS["C19"] = dict(
+    level="exploration",
+    technique="property-based testing (rapid): model topologies encoded as CLUSTER SLOTS / CLUSTER SHARDS replies in RESP2 and RESP3 shapes, parsed and compared with the model; mutated replies must not crash the parsers",
+    level_text="Generated topologies (shards, replicas, endpoints, health, slot ranges) are encoded in every reply shape, parsed by parseSlots/parseShards and compared with the model; mutated replies check robustness.",
+    level_note="Covers the topology-parsing sentence of the property in-package; routing, MOVED/ASK and redirect limits are covered by the cluster bubble check when present. " + LIMITS,
+    units=[U("inpkg", "rueidis", "TestVerif_C19_TopologyParsers", T(5000), T(30000, shards=16))],
+)
+
+PROPS["C43"] = dict(
+    level="exploration",
+    technique="property-based testing (rapid): generated call programs over a hook-wrapped hand-written recording client (no server); oracle = event-log model: one hook event per call with the caller's arguments, next reaches the receiver's inner client, caller gets exactly the hook's value",
+    level_text="Programs of 1-30 calls over every hooked entry point (Do, DoMulti, DoCache, DoMultiCache, Receive, DoStream, DoMultiStream) on the wrapped client, on clients from Nodes() down to depth 3 and on dedicated clients from Dedicated(fn)/Dedicate() of any of them; the hook passes, replaces or short-circuits; hook and inner event logs and the returned values (compared with ==) are checked against the program.",
+    level_note="The inner client is a recording stand-in that returns a fresh Nodes() map per call like the real clients; DoCache/DoMultiCache/DoStream/DoMultiStream do not exist on DedicatedClient and are therefore only exercised on Client receivers. Sequential programs only (the wrapper holds no state). " + LIMITS,
+    units=[U("harness", "props", "TestVerif_C43_Hooks", T(5000), T(50000, shards=16))],
+)
+
+PROPS["C41"] = dict(
+    level="exploration",
+    technique="property-based testing (rapid): generated pipelines over a scripted stand-in client whose replies are bound to commands by marker arguments; oracle = reference model of per-kind result decoding, first-error rule, MULTI/EXEC batch shape and Discard",
+    level_text="1-20 members drawn from 102 adapter methods of 17 result kinds, queued on Pipeline, TxPipeline, Pipelined and TxPipelined with an optional Discard at a generated point; replies are typed values (RESP2 and RESP3 shapes), error replies, nulls and transport errors; transactions commit, abort with a null EXEC, abort with EXECABORT or fail as a whole. Exec must return the queued objects in queue order, each with its own reply, and the first failing member's error; the transaction must be one MULTI..EXEC batch and a null EXEC must give TxFailedErr.",
+    level_note="The client is a stand-in (no server); 102 of the roughly 500 adapter methods are in the table (all Pipeline methods share one three-line wrapper pattern). Error texts are compared modulo the generic 'ERR ' prefix that rueidis strips. A null reply to BoolCmd/Cmd and the member state after an aborted transaction are outside the property text and not asserted. " + LIMITS,
+    units=[U("harness", "props", "TestVerif_C41_Pipelines", T(5000), T(50000, shards=16))],
+)
+
+PROPS["C42"] = dict(
+    level="other",
+    technique="property-based testing (rapid): (a) differential of the adapter's captured argv against the expectations of rueidiscompatmock for reflection-generated arguments, (b) comparison with a hand-written reference table of go-redis v9 argv conventions",
+    level_text="go-redis is not available offline, so no true differential exists. (a) 316 adapter methods that have an ExpectXxx counterpart in rueidiscompatmock are driven with arguments generated from their parameter types (option structs with every subset of fields, durations with sub-second parts, empty/binary strings, value lists as pairs/slice/map); the mock must accept the adapter's command. (b) 128 adapter methods (91 groups) are compared with a reference of go-redis v9 conventions written by hand (Set/SetArgs/SetNX/SetXX/GetEx expirations incl. KeepTTL, Expire family, HSet value shapes, ZAdd flags, ZRangeBy LIMIT, ZRangeArgs, Scan MATCH/COUNT, XAdd/XRead/XTrim options, BitCount, Sort, GeoSearch, Eval, ...), modulo keyword case, numeric spelling, the optional '=' of stream thresholds and SET option order.",
+    level_note="(a) is not an independent oracle: the mock does not call the adapter, but its ExpectXxx bodies are transliterations of the adapter bodies on the same command builder; it detects drift between adapter and mock, not misconceptions shared by both (GetEx with zero expiration is wrong in both). Disagreements caused by three recognised mock defects (sub-unit durations truncated to 0, BitCount.Unit ignored, empty key in the pairs matcher) are counted as inconclusive, not reported. (b) depends on the author's recollection of the go-redis sources; only conventions stable across v9 are listed; about 370 adapter methods have no reference at all. " + LIMITS,
+    explanation="Partial by nature: the real go-redis module cannot be installed offline. The check compares the adapter's argv with (a) the repository's own go-redis-style mock (rueidiscompatmock; 316 methods; a drift detector only, because the mock is largely a copy of the adapter's encoding) and (b) a hand-written table of go-redis v9 argv conventions for 128 methods. Methods without either reference are not judged.",
+    units=[
+        U("harness", "props", "TestVerif_C42_MockDifferential", T(150000), T(600000, shards=16)),
+        U("harness", "props", "TestVerif_C42_Reference", T(30000), T(300000, shards=16)),
+    ],
 )
 
 # ---- END PROPS (new entries go above this line)
